@@ -89,6 +89,32 @@ def renderings_check(ctx, d, n):
                        dict(protocol=p['name'], params=k[0], pronto=hexs, as_list=str(outs[0]), as_tuple=str(outs[1]), as_pronto=str(outs[2])))
 
 
+def reload_check(ctx, names):
+    """Switching a protocol off (or emptying its carrier window) THROUGH protocols.<Name> after the configuration has been saved and
+    loaded back must reach the dispatcher: tools/c10_worker.py runs the scenario in a fresh interpreter."""
+    import os
+    import subprocess
+    import sys
+    env = dict(os.environ, PYTHONPATH=vlib.REPO, PYTHONHASHSEED='0')
+    try:
+        r = subprocess.run([sys.executable, '-B', os.path.join(os.path.dirname(os.path.dirname(os.path.abspath(__file__))), 'c10_worker.py')],
+                           input=json.dumps(names), capture_output=True, text=True, timeout=600, env=env)
+        recs = json.loads(r.stdout.strip().splitlines()[-1])
+    except Exception as e:  # noqa
+        ctx.report('harness', 'reload worker failed', {}, dict(theorem='tools/c10_worker.py', error=repr(e)[:300]), found_input=False)
+        return
+    for rec in recs:
+        for how in ('disabled', 'carrier window empty'):
+            ctx.count_eval(key=('reload', rec['protocol'], how))
+            if rec.get(how) == rec['protocol']:
+                ctx.report('dispatcher', 'code from a protocol switched off through protocols.<Name> after a reload',
+                           dict(protocol=rec['protocol'], how=how),
+                           dict(protocol=rec['protocol'], how=how, params=rec.get('params'),
+                                scenario='read protocols.P, config.save, load_config, set through protocols.P, protocols.decode'))
+        if 'error' in rec:
+            ctx.note('reload scenario not run for %s: %s' % (rec['protocol'], rec['error']))
+
+
 def run(ctx, prop='C10'):
     vlib.import_repo()
     vlib.ensure_static_build()
@@ -110,6 +136,8 @@ def run(ctx, prop='C10'):
         ORACLES[prop](ctx, d, r)
     if prop == 'C10':
         helper_check(ctx, d)
+        reload_check(ctx, ['NEC', 'Sony12', 'RC5', 'JVC', 'Panasonic', 'Samsung36'] if ctx.tier == 'quick' else
+                     [n for n in d.names if n != 'Universal'][::4])
     if prop == 'C11':
         renderings_check(ctx, d, 40 if ctx.tier == 'quick' else 173)
     bad = dr.correspondence(ctx, recs)
